@@ -137,6 +137,10 @@ def _run(prop, tier, prof, replay_path, t0, sd, work):
             rng = random.Random(sd * 104729 + 1)
             raw = [drive.add_scans(ops, rng, nkeys, **prof["scans"]) for ops in raw]
         behaviours = assign_configs(raw, prof, sd)
+        # behaviours that exposed defects which were repaired: reported again if they return
+        for path in prof.get("regress", []):
+            with open(os.path.join(vlib.VERIF, path)) as fh:
+                behaviours.append(json.load(fh)["behaviour"])
         # one dedicated run per listed finding shows that it still reproduces
         for f in known.get("findings", []):
             if f.get("property") == prop and f.get("example_replay"):
